@@ -10,6 +10,9 @@ independently — the check compares the two byte for byte):
   raw     {"fr", "id", "body"}
   item    {"fr", "k": "row",  "row", "tail"}
           {"fr", "k": "cell", "col", "style", "fl", "v": val, "tail"}
+          {"fr", "k": "short", "style", "fl", "v": val, "tail"}     a short cell record (BrtShortBlank ..
+                     BrtShortIsst, ids 12..18: no column field; the cell stands in the column right
+                     after the previous cell record of its row); val one of blank .. isst
           {"fr", "k": "other", "id", "body"}
   val     ("blank",) ("rk","i",v,x100) ("rk","f",hi30,x100) ("err",code) ("bool",b) ("real",bits)
           ("st",text) ("isst",i) ("fst",text) ("fnum",bits) ("fbool",b) ("ferr",code)
@@ -24,11 +27,17 @@ write_package, expected_cells, rk_word.
 """
 import io, struct, zipfile
 from biffgen_c10 import brec, wide
+import xlsbstyles
 
 ERR_CODES = [0x00, 0x07, 0x0F, 0x17, 0x1D, 0x24, 0x2A, 0x2B]      # cerr order of RK.v
 ERR_CANON = {0x00: 3, 0x07: 0, 0x0F: 6, 0x17: 5, 0x1D: 2, 0x24: 4, 0x2A: 1, 0x2B: 7}   # util.rs err_code
 BLOCK_END = {0x85: 0x86, 0x25: 0x26, 0x186: 0x187}
-INTERPRETED = set([0] + list(range(2, 12)) + [0x92])
+# record ids the CELLTABLE grammar gives a meaning of its own: BrtRowHdr, the cell records 1..11, the
+# short cell records 12..18, BrtCellRString 62, BrtEndSheetData; everything else may be written as
+# an "other" record (Coq: XlsbRec.cell_table_id)
+CELL_TABLE_IDS = set(range(0, 19)) | set([0x3E, 0x92])
+INTERPRETED = CELL_TABLE_IDS
+SHORTABLE = ("blank", "rk", "err", "bool", "real", "st", "isst")
 
 def hx(b):
     return bytes(b).hex() if len(b) else "-"
@@ -93,6 +102,9 @@ def val_bytes(v):
     raise ValueError(k)
 
 def item_id(it):
+    if it["k"] == "short":
+        assert it["v"][0] in SHORTABLE
+        return val_id(it["v"]) + 11
     return 0 if it["k"] == "row" else val_id(it["v"]) if it["k"] == "cell" else it["id"]
 
 def item_body(it):
@@ -101,6 +113,8 @@ def item_body(it):
     if it["k"] == "cell":
         return (struct.pack("<I", it["col"]) + struct.pack("<I", it["style"])[:3] + bytes([it["fl"]]) +
                 val_bytes(it["v"]) + it["tail"])
+    if it["k"] == "short":
+        return struct.pack("<I", it["style"])[:3] + bytes([it["fl"]]) + val_bytes(it["v"]) + it["tail"]
     return it["body"]
 
 def enc_raw(r):
@@ -154,6 +168,8 @@ def item_text(it):
     if it["k"] == "cell":
         return "%s,C,%d,%d,%d,%s,%s" % (_fr(it["fr"]), it["col"], it["style"], it["fl"],
                                        val_text(it["v"]), hx(it["tail"]))
+    if it["k"] == "short":
+        return "%s,S,%d,%d,%s,%s" % (_fr(it["fr"]), it["style"], it["fl"], val_text(it["v"]), hx(it["tail"]))
     return "%s,O,%d,%s" % (_fr(it["fr"]), it["id"], hx(it["body"]))
 
 def hrec_text(h):
@@ -184,16 +200,9 @@ def sst_text(items):
     return ";".join("%s,%s,%s" % (_fr(fr), _text(t), hx(tail)) for fr, t, tail in items) or "-"
 
 def styles_part(xf_ids, customs):
-    st = brec(0x0116)
-    if customs:
-        st += brec(0x0267, struct.pack("<I", len(customs)))
-        for ifmt, s in customs:
-            st += brec(0x002C, struct.pack("<H", ifmt) + wide(s))
-        st += brec(0x0268)
-    st += brec(0x0269, struct.pack("<I", len(xf_ids)))
-    for ifmt in xf_ids:
-        st += brec(0x002F, struct.pack("<HHHHHBBBB", 0, ifmt, 0, 0, 0, 0, 0, 0, 0x10) + b"\0\0")
-    return st + brec(0x026A) + brec(0x0117)
+    """xl/styles.bin in Excel's shape: FMTS, FONTS, FILLS, BORDERS, CELLSTYLEXFS, CELLXFS, STYLES ...;
+    font / fill / border colours carry the byte pairs E9 04 / E7 04 (tools/xlsbstyles.py)"""
+    return xlsbstyles.default_part(list(customs), list(xf_ids))
 
 def workbook_part(names, is_1904):
     wb = brec(0x0083) + brec(0x0099, struct.pack("<II", 1 if is_1904 else 0, 0) + wide("")) + brec(0x008F)
@@ -291,13 +300,22 @@ def cell_value(v, style, env):
 
 def expected_cells(L, env):
     """{(row, col): (ref text, data text)}: the value of every non-blank cell under the current
-    row header; a later record at the same position replaces an earlier one"""
-    out, row = {}, 0
+    row header; a short cell record stands in the column right after the previous cell record of
+    its row (a blank one counts), whatever other records lie between; a later record at the same
+    position replaces an earlier one"""
+    out, row, prev = {}, 0, None
     for it in L["items"]:
         if it["k"] == "row":
-            row = it["row"]
-        elif it["k"] == "cell":
+            row, prev = it["row"], None
+        elif it["k"] in ("cell", "short"):
+            if it["k"] == "short":
+                if prev is None:
+                    continue                       # no position: not a legal layout
+                col = prev + 1
+            else:
+                col = it["col"]
+            prev = col
             cv = cell_value(it["v"], it["style"], env)
             if cv is not None:
-                out[(row, it["col"])] = cv
+                out[(row, col)] = cv
     return out
